@@ -104,18 +104,25 @@ Definition m_build (cachefile : path) (nm : string) (vers : pyval) (root : body)
             match res with
             | inr e => rollback e w2
             | inl v =>
-                let finish :=
+                let pre :=
                   err <- set_created_dirs ccd ;;
                   w <- get ;;
                   (if isfile (w_fs w) cachefile then b <- back_up_and_remove cachefile ;; ret tt else ret tt) ;;;
-                  write_cache ;;;
                   ret err in
-                match finish w2 with
+                match pre w2 with
                 | (w3, inr e) => rollback e w3
                 | (w3, inl err) =>
-                    match commit err w3 with
-                    | (w4, inl _) => (w4, Done (inl v))
-                    | (w4, inr e) => (w4, Done (inr e))
+                    match write_cache w3 with
+                    | (w4, inr e) =>
+                        (* a partially written cache file is removed before rolling back *)
+                        match try_to_remove_file cachefile w4 with
+                        | (w5, _) => rollback e w5
+                        end
+                    | (w4, inl _) =>
+                        match commit err w4 with
+                        | (w5, inl _) => (w5, Done (inl v))
+                        | (w5, inr e) => (w5, Done (inr e))
+                        end
                     end
                 end
             end
